@@ -257,6 +257,35 @@ fn hosts() -> Vec<Host> {
             },
             applies: |_| true,
         },
+        // E as a nested group between other literals in a literal-only body (merged into one Lit)
+        Host {
+            name: "(?<=a(?:E)b)",
+            build: |e| format!("(?<=a(?:{})b)", e),
+            expect: |t, s, from| {
+                let key = format!("a{}b", s);
+                (from..=t.len()).find(|&q| t.is_char_boundary(q) && t[..q].ends_with(&key)).map(|q| vec![Some((q, q))])
+            },
+            applies: |_| true,
+        },
+        Host {
+            name: "(?>-(?:E)x)7?",
+            build: |e| format!("(?>-(?:{})x)7?", e),
+            expect: |t, s, from| {
+                let key = format!("-{}x", s);
+                occ(t, &key, from).map(|p| vec![Some((p, p + key.len() + if t[p + key.len()..].starts_with('7') { 1 } else { 0 }))])
+            },
+            applies: |_| true,
+        },
+        // a reference to a literal-only group that sits in ONE branch of a conditional
+        Host {
+            name: "(?((?=!))!(E)|a)-\\1",
+            build: |e| format!("(?((?=!))!({})|a)-\\1", e),
+            expect: |t, s, from| {
+                let key = format!("!{}-{}", s, s);
+                occ(t, &key, from).map(|p| vec![Some((p, p + key.len())), Some((p + 1, p + 1 + s.len()))])
+            },
+            applies: |_| true,
+        },
         Host { name: "(?x:E)", build: |e| format!("(?x:{})", e), expect: |t, s, from| occ(t, s, from).map(|p| vec![Some((p, p + s.len()))]), applies: |s| !s.chars().any(|c| c.is_whitespace()) },
         Host { name: "(?i:E)x?", build: |e| format!("(?i:{})x?", e), expect: |t, s, from| occ(t, s, from).map(|p| vec![Some((p, p + s.len() + if t[p + s.len()..].starts_with('x') { 1 } else { 0 }))]), applies: |s| !s.chars().any(|c| c.is_alphabetic()) },
     ]
@@ -281,8 +310,8 @@ fn check_string(s: &str, hs: &[Host], acc: &mut Acc) {
     if !needs && e != s {
         acc.violate(Violation::new("C17", "borrow", s, "", 0, "escape", format!("{:?}", s), format!("{:?}", e)));
     }
-    let mut texts: Vec<String> = vec![s.to_string(), format!("{}{}", s, s), alter(s), format!("{}{}", alter(s), s)];
-    for (u, v) in [("a", ""), ("é", "c"), ("\n", "x"), ("ab", "é"), ("-", "-"), ("-a", "1"), ("b", "7x"), ("x\r", "\r"), ("\r\n", "\r\n"), ("a\n", "\nb")] {
+    let mut texts: Vec<String> = vec![s.to_string(), format!("{}{}", s, s), alter(s), format!("{}{}", alter(s), s), format!("!{}-{}", s, s), format!("a-{} !{}-{}", s, s, s)];
+    for (u, v) in [("a", ""), ("é", "c"), ("\n", "x"), ("ab", "é"), ("-", "-"), ("-a", "1"), ("b", "7x"), ("x\r", "\r"), ("\r\n", "\r\n"), ("a\n", "\nb"), ("a-", "x7"), ("a", "b"), ("!", "-")] {
         texts.push(format!("{}{}{}", u, s, v));
         texts.push(format!("{}{}{}{}", u, s, s, v));
     }
@@ -375,7 +404,7 @@ pub fn run(ctx: &Ctx) -> Outcome {
     let mut out = Outcome::new(acc);
     out.distinct_nontrivial = out.acc.distinct;
     out.exhaustive = true;
-    out.rule = format!("all strings of length <= {} over {} symbols (every ASCII punctuation character incl. all regex meta-characters, a b 1 space newline é € 😀 ß ﬁ) plus {} seeded random strings of length 3-10; for each s: Cow::Borrowed iff s contains none of \\.+*?()|[]{{}}^$# ; Regex::new(host(escape(s))) compiles for {} hosts (E, (?:E), (E)\\1, (?=E)E, [ab]*E, (?<=E), (?>E)c?, (?:E){{2}}, (?!E)., (?<!-)[ab]E, E\\d?(?=), (?<=E)E, (?<=E)., (?=.?)E(?:(?=c)c|)*(?!!), (?!!)(E)(?:(?=c)c|)*?(?![c])\\1?, (?<=(?>E))E, (?>(?!!)[ab]*E), (?=(?!!)[ab]*?E)[ab]?, (?m:(?!!)^E(?!!)), (?m:(?=)E$(?=)), (?x:E) for whitespace-free s, (?i:E)x? for letter-free s) and on texts u+s+v, s+s, s with its last character altered the captures equal what plain string search predicts, for a search from the start and from every later character boundary. Non-trivial: distinct strings containing a meta-character.", maxlen, SYMS.len(), n_random, hs_count);
+    out.rule = format!("all strings of length <= {} over {} symbols (every ASCII punctuation character incl. all regex meta-characters, a b 1 space newline é € 😀 ß ﬁ) plus {} seeded random strings of length 3-10; for each s: Cow::Borrowed iff s contains none of \\.+*?()|[]{{}}^$# ; Regex::new(host(escape(s))) compiles for {} hosts (E, (?:E), (E)\\1, (?=E)E, [ab]*E, (?<=E), (?>E)c?, (?:E){{2}}, (?!E)., (?<!-)[ab]E, E\\d?(?=), (?<=E)E, (?<=E)., (?=.?)E(?:(?=c)c|)*(?!!), (?!!)(E)(?:(?=c)c|)*?(?![c])\\1?, (?<=(?>E))E, (?>(?!!)[ab]*E), (?=(?!!)[ab]*?E)[ab]?, (?<=a(?:E)b), (?>-(?:E)x)7?, (?((?=!))!(E)|a)-\\1, (?m:(?!!)^E(?!!)), (?m:(?=)E$(?=)), (?x:E) for whitespace-free s, (?i:E)x? for letter-free s) and on texts u+s+v, s+s, s with its last character altered the captures equal what plain string search predicts, for a search from the start and from every later character boundary. Non-trivial: distinct strings containing a meta-character.", maxlen, SYMS.len(), n_random, hs_count);
     out.assumptions = vec!["'needs escaping' is the set \\.+*?()|[]{}^$# (regex meta-characters plus the comment character #)".into()];
     out
 }
